@@ -310,7 +310,7 @@ pub fn run(ctx: &Ctx) {
     ctx.assume("the expectation claim is tested from m = 16 (for m <= 2 the estimator has infinite variance and no mean-based test is sound) and uses a normal approximation with z = 7.5; the spread claim from m = 64 as stated");
     ctx.assume("rayon's reduction tree cannot be enumerated; agreement is checked to a tolerance that covers every summation order");
     super::run_fixed_tier(ctx, replay);
-    let (cases, max_m, max_n, work) = ctx.tier.pick((96, 1024, 20_000, 400_000_000), (1600, 4096, 2_000_000, 3_000_000_000));
+    let (cases, max_m, max_n, work) = ctx.tier.pick((96, 1024, 20_000, 400_000_000), (1000, 4096, 2_000_000, 1_500_000_000));
     ctx.drive("accuracy", cases, 16, 12, || acc_strategy(max_m, max_n, work), eval_acc);
     let (cases, max_m, max_pool) = ctx.tier.pick((6_000, 256, 500), (150_000, 1024, 3000));
     ctx.drive("monotone-and-parallel", cases, 16, 1000, || mono_strategy(max_m, max_pool), eval_mono);
